@@ -1,8 +1,10 @@
 // Package hx: helpers shared by the correspondence drivers (line protocol, PRNG, guards).
 //
 // Line protocol (one case per line, fields separated by one space):
-//   bytes  -> lower-case hex, "-" for the empty string
-//   lists  -> comma separated, "-" for the empty list
+//
+//	bytes  -> lower-case hex, "-" for the empty string
+//	lists  -> comma separated, "-" for the empty list
+//
 // The Go driver writes the case file (inputs) and the observation file (what /repo did);
 // the extracted Coq model reads the case file and writes its own observation file.
 package hx
@@ -14,6 +16,9 @@ import (
 	"os"
 	"strconv"
 	"strings"
+	"sync"
+	"sync/atomic"
+	"syscall"
 	"time"
 )
 
@@ -94,7 +99,16 @@ func UnHexList(s string) [][]byte {
 // Rng: splitmix64; every random choice of a driver derives from one seed.
 type Rng struct{ s uint64 }
 
-func NewRng(seed uint64) *Rng { return &Rng{s: seed*0x9E3779B97F4A7C15 + 0x1234567} }
+// NewRng: the seed is hashed (splitmix64 finaliser, twice) so that the streams of neighbouring seeds are unrelated.
+func NewRng(seed uint64) *Rng {
+	z := seed + 0x632BE59BD9B4E019
+	for i := 0; i < 2; i++ {
+		z = (z ^ (z >> 30)) * 0xBF58476D1CE4E5B9
+		z = (z ^ (z >> 27)) * 0x94D049BB133111EB
+		z = z ^ (z >> 31)
+	}
+	return &Rng{s: z}
+}
 func (r *Rng) U64() uint64 {
 	r.s += 0x9E3779B97F4A7C15
 	z := r.s
@@ -118,8 +132,78 @@ func (r *Rng) Bytes(n int) []byte {
 func (r *Rng) Pick(v []int) int { return v[r.Intn(len(v))] }
 func (r *Rng) Bool() bool       { return r.U64()&1 == 1 }
 
-// Guard runs f under recover and a deadline. Result: f's string, "PANIC", or "HANG".
+// ---------------------------------------------------------------------------------------------
+// Deadlines.  A verdict must not depend on scheduling luck: every deadline of a driver goes through D (Guard
+// does so itself).  In the first, parallel pass D(d) = d.  A case whose observation says that a deadline
+// expired (HANG, or what the driver's own predicate recognises) is run again by Out.Retry - alone, after all
+// other cases have finished - with every deadline multiplied by RetryScale (at least RetryFloor); only that
+// second run decides.
+
+const (
+	RetryScale = 10
+	RetryFloor = 60 * time.Second
+)
+
+var scale int64 = 1
+
+// a driver that runs its cases in child processes hands the retry scale down through the environment
+const scaleEnv = "VERIF_DEADLINE_SCALE"
+
+// VERIF_DEADLINE_FIRST_MS (testing aid only) caps every first-pass deadline, so that the retry stage can be
+// exercised on a healthy tree; retries use the real deadlines.
+var firstCap time.Duration
+
+func init() {
+	if v, err := strconv.Atoi(os.Getenv(scaleEnv)); err == nil && v > 1 {
+		scale = int64(v)
+	}
+	if v, err := strconv.Atoi(os.Getenv("VERIF_DEADLINE_FIRST_MS")); err == nil && v > 0 {
+		firstCap = time.Duration(v) * time.Millisecond
+	}
+}
+
+// ChildEnv is the environment entry that puts a child process into the same stage (parallel pass / retry).
+func ChildEnv() string { return fmt.Sprintf("%s=%d", scaleEnv, atomic.LoadInt64(&scale)) }
+
+// D is the effective value of a deadline: d in the parallel pass, max(RetryScale*d, RetryFloor) in a retry.
+func D(d time.Duration) time.Duration {
+	k := atomic.LoadInt64(&scale)
+	if k <= 1 {
+		if firstCap > 0 && d > firstCap {
+			return firstCap // testing aid: provoke first-pass timeouts to exercise the retry stage
+		}
+		return d
+	}
+	r := d * time.Duration(k)
+	if r < RetryFloor {
+		r = RetryFloor
+	}
+	return r
+}
+
+// Solo runs f with the retry deadlines in force (for drivers that organise their own second, sequential pass).
+func Solo(f func()) {
+	atomic.StoreInt64(&scale, RetryScale)
+	defer atomic.StoreInt64(&scale, 1)
+	f()
+}
+
+// Retrying reports whether the driver is in the second (solo) stage.
+func Retrying() bool { return atomic.LoadInt64(&scale) > 1 }
+
+// CPUTime is the CPU time (user + system) the process has consumed so far.  A single case measured while
+// nothing else runs in the process (retry stage) is charged its own work only, whatever the machine load.
+func CPUTime() time.Duration {
+	var ru syscall.Rusage
+	if err := syscall.Getrusage(syscall.RUSAGE_SELF, &ru); err != nil {
+		return 0
+	}
+	return time.Duration(ru.Utime.Nano() + ru.Stime.Nano())
+}
+
+// Guard runs f under recover and a deadline (scaled by D). Result: f's string, "PANIC", or "HANG".
 func Guard(d time.Duration, f func() string) (res string, detail string) {
+	d = D(d)
 	type r struct{ s, d string }
 	ch := make(chan r, 1)
 	go func() {
@@ -138,11 +222,15 @@ func Guard(d time.Duration, f func() string) (res string, detail string) {
 	}
 }
 
-// Out: the pair of files a driver writes.
+// Out: the pair of files a driver writes.  Lines are kept in memory until Close so that Retry can replace
+// the observation of a case that ran out of time in the parallel pass.
 type Out struct {
-	cases, obs *bufio.Writer
-	cf, of     *os.File
-	N          int
+	mu        sync.Mutex
+	cf, of    *os.File
+	caseLines []string
+	obsLines  []string
+	caseByID  map[string]string
+	N         int
 }
 
 func NewOut(casesPath, obsPath string) *Out {
@@ -154,16 +242,108 @@ func NewOut(casesPath, obsPath string) *Out {
 	if err != nil {
 		panic(err)
 	}
-	return &Out{cases: bufio.NewWriterSize(cf, 1<<20), obs: bufio.NewWriterSize(of, 1<<20), cf: cf, of: of}
+	return &Out{cf: cf, of: of, caseByID: map[string]string{}}
 }
-func (o *Out) Case(line string) { fmt.Fprintln(o.cases, line); o.N++ }
-func (o *Out) Obs(line string)  { fmt.Fprintln(o.obs, line) }
+
+func field(line string, i int) string {
+	f := strings.SplitN(line, " ", i+2)
+	if len(f) > i {
+		return f[i]
+	}
+	return ""
+}
+
+func (o *Out) Case(line string) {
+	o.mu.Lock()
+	o.caseLines = append(o.caseLines, line)
+	o.caseByID[field(line, 1)] = line
+	o.N++
+	o.mu.Unlock()
+}
+func (o *Out) Obs(line string) {
+	o.mu.Lock()
+	o.obsLines = append(o.obsLines, line)
+	o.mu.Unlock()
+}
+
+// TimedOut is the default test of Retry: the observation has a field HANG.
+func TimedOut(obs string) bool {
+	for _, f := range strings.Fields(obs) {
+		if f == "HANG" {
+			return true
+		}
+	}
+	return false
+}
+
+// Retry re-runs, alone and one after the other, the cases whose observation says that a deadline expired,
+// with all deadlines scaled (see D), and replaces their observations.  run gets the case line and returns
+// the observation line ("<id> ...").  To bound the cost when something really hangs, at most maxRetry cases
+// are retried and retrying stops after three consecutive cases that time out again.
+func (o *Out) Retry(run func(line string) string) { o.RetryIf(TimedOut, run) }
+
+const maxRetry = 12
+
+func (o *Out) RetryIf(timedOut func(obs string) bool, run func(line string) string) {
+	o.mu.Lock()
+	defer o.mu.Unlock()
+	tried, again := 0, 0
+	for i, ob := range o.obsLines {
+		if !timedOut(ob) {
+			continue
+		}
+		id := field(ob, 0)
+		line, ok := o.caseByID[id]
+		if !ok {
+			readMu.Lock()
+			line, ok = readByID[id]
+			readMu.Unlock()
+		}
+		if !ok || tried >= maxRetry || again >= 3 {
+			continue
+		}
+		tried++
+		atomic.StoreInt64(&scale, RetryScale)
+		t0 := time.Now()
+		nob := run(line)
+		atomic.StoreInt64(&scale, 1)
+		fmt.Fprintf(os.Stderr, "hx: case %s ran out of time in the parallel pass (%s); re-run alone with %dx deadlines took %s: %s\n",
+			id, clip(ob, 60), RetryScale, time.Since(t0).Round(time.Millisecond), clip(nob, 60))
+		if timedOut(nob) {
+			again++
+		} else {
+			again = 0
+		}
+		o.obsLines[i] = nob
+	}
+}
+
+func clip(s string, n int) string {
+	if len(s) > n {
+		return s[:n] + "..."
+	}
+	return s
+}
+
 func (o *Out) Close() {
-	o.cases.Flush()
-	o.obs.Flush()
+	cw := bufio.NewWriterSize(o.cf, 1<<20)
+	for _, l := range o.caseLines {
+		fmt.Fprintln(cw, l)
+	}
+	cw.Flush()
+	ow := bufio.NewWriterSize(o.of, 1<<20)
+	for _, l := range o.obsLines {
+		fmt.Fprintln(ow, l)
+	}
+	ow.Flush()
 	o.cf.Close()
 	o.of.Close()
 }
+
+var (
+	readMu   sync.Mutex
+	readByID = map[string]string{}
+)
 
 // ReadLines of a case file.
 func ReadLines(path string) []string {
@@ -178,6 +358,9 @@ func ReadLines(path string) []string {
 	for sc.Scan() {
 		if l := strings.TrimSpace(sc.Text()); l != "" {
 			out = append(out, l)
+			readMu.Lock()
+			readByID[field(l, 1)] = l
+			readMu.Unlock()
 		}
 	}
 	return out
